@@ -64,10 +64,10 @@ CHECKS = {
               text='For ALL inputs: sharded transforms, longitude derivative, spectral operators, filters, sharded_einsum (gather/scatter strategies, both argument orders), parallel cumulative sums, vertical padding, primitive-equation implicit/explicit operators equal the single-device results after cropping, on meshes with axis sizes 1,2,4,6 (<= 8 devices) and padded layouts; no non-finite constant reaches the IR.',
               design='§3 C07'),
   'C08': dict(category='other', technique='symbolic execution of the jaxprs of jax.jvp / jax.vjp of the real functions (polynomial normal forms with atoms; z3 ite-terms for kinked functions) + exact symbolic differentiation of the primal normal form + QF_LRA monomial-abstraction / QF_NRA queries; definedness hazards settled by QF_NRA witness + replay',
-              text='For ALL admissible states, tangents and cotangents: forward mode equals the exact derivative of the primal (chain rule through exp/log/pow/reciprocal atoms), reverse mode is the adjoint of forward mode, and no undefined operation is reachable in the derivative programs (an operation on the edge of its domain is settled by a solver witness replayed on the real jax.jvp/jax.vjp): transforms and spectral operators, filters, dry and moist primitive-equation explicit/implicit terms (dense and cumulative-sum vertical operators, split and blockwise solves; jax linear_call interpreted) and a filtered Euler step, shallow-water steps, Held-Suarez forcing, plain and padded layouts; kinks (vertical interpolation routines, upwind advection) decided in the term domain for every branch: derivative of the documented formula off the kink, central-difference limit at the kink, adjointness everywhere. A comparison on data that switches inside the admissible box in a differentiated program is probed: QF_NRA witnesses on either side of and on the switching surface, real jax.jvp against central differences of the real primal there.',
+              text='For ALL admissible states, tangents and cotangents: forward mode equals the exact derivative of the primal (chain rule through exp/log/pow/reciprocal atoms), reverse mode is the adjoint of forward mode, and no undefined operation is reachable in the derivative programs (an operation on the edge of its domain is settled by a solver witness replayed on the real jax.jvp/jax.vjp): transforms and spectral operators, filters, dry and moist primitive-equation explicit/implicit terms (dense and cumulative-sum vertical operators, split and blockwise solves; jax linear_call interpreted) and a filtered Euler step, shallow-water steps, gradients through nested_checkpoint_scan / trajectory_from_step / repeated against the flat scan and the sequential loop for EVERY step function (uninterpreted, QF_UFNRA), Held-Suarez forcing, plain and padded layouts; kinks (vertical interpolation routines, upwind advection) decided in the term domain for every branch: derivative of the documented formula off the kink, central-difference limit at the kink, adjointness everywhere. A comparison on data that switches inside the admissible box in a differentiated program is probed: QF_NRA witnesses on either side of and on the switching surface, real jax.jvp against central differences of the real primal there.',
               design='§3 C08'),
   'C13': dict(category='other', technique='symbolic execution of the traced jaxpr + QF_LRA queries (monomial abstraction for bilinear clauses)',
-              text='Bounded symbolic verification of the sigma calculus identities for ALL column data and vertical velocities on each enumerated level set (even, dyadic uneven, seeded random), axis and shape. The same calculus on integer-valued data stored as int64/int32 (traced with an integer argument, integer witnesses) equals the documented formulas on the real values.',
+              text='Bounded symbolic verification of the sigma calculus identities for ALL column data and vertical velocities on each enumerated level set (even, dyadic uneven, seeded random), axis and shape. The same calculus on integer-valued data stored as int64/int32 (traced with an integer argument, integer witnesses) equals the documented formulas on the real values. Cumulative sums (both strategies), cumulative / total integrals and both geopotential strategies also on long level axes (130, 600 layers; 1030, 2050 thorough).',
               design='§3 C13'),
 }
 
